@@ -128,9 +128,13 @@ package db
 // A write that failed for any reason other than a storage timeout gives back the sequence it had
 // reserved and every sequence it had set aside as unused (a release attempt is made for each).
 //@ func DatabaseCollectionWithUser.updateAndReturnDoc
-//@   props C07 C11
+//@   props C07 C11 C14
 //@   modifies *
 //@   only-contracts releaseSequence, sequences, IsTimeoutError
+// (C14) an attachment key is deleted as obsolete only if it is not in the post-write leaf set, and that set
+// is the one getAttachmentIDsForLeafRevisions computed after the write without error
+//@   before[not-referenced]      call Delete#1 !($2 in leafAttachments)
+//@   before[post-write-leaf-set] call Delete#1 called(getAttachmentIDsForLeafRevisions, 1) && isNilErr(callres(getAttachmentIDsForLeafRevisions, 1, 1)) && leafAttachments == callres(getAttachmentIDsForLeafRevisions, 1, 0)
 //@   ensures[release-doc-seq] called(WriteUpdateWithXattrs, 1) && !isNilErr(callres(WriteUpdateWithXattrs, 1, 1)) && !isTimeoutErr(callres(WriteUpdateWithXattrs, 1, 1)) && docSequence > 0 ==> (docSequence in releaseAttempted)
 //@   ensures[release-unused]  called(WriteUpdateWithXattrs, 1) && !isNilErr(callres(WriteUpdateWithXattrs, 1, 1)) && !isTimeoutErr(callres(WriteUpdateWithXattrs, 1, 1)) ==> (forall k int :: {unusedSequences[k]} 0 <= k && k < len(unusedSequences) ==> (unusedSequences[k] in releaseAttempted))
 //@   ensures[surfaces]        called(WriteUpdateWithXattrs, 1) && !isNilErr(callres(WriteUpdateWithXattrs, 1, 1)) && callres(WriteUpdateWithXattrs, 1, 1) != box(base.ErrUpdateCancel) ==> !isNilErr(err)
